@@ -58,6 +58,7 @@ var c02Kinds = []string{
 	"wrong-key", "empty-key", "alg-none", "alg-hs384", "alg-hs512", "alg-rs256", "alg-lower", "alg-absent", "hdr-crit", "hdr-b64",
 	"iss-other", "iss-absent", "exp", "exp-absent", "exp-string", "nbf-future", "iat-future", "at-absent", "at-unknown",
 	"json-flat", "json-general", "nested", "garbage", "empty",
+	"wide-char", // one character replaced by a non-ASCII character whose UTF-16 code unit has the same low byte
 }
 
 func genC02Tok(t *rapid.T) c02Tok {
@@ -67,6 +68,8 @@ func genC02Tok(t *rapid.T) c02Tok {
 		k.Seg, k.Pos, k.Val = rapid.IntRange(0, 2).Draw(t, "seg"), rapid.IntRange(0, 400).Draw(t, "pos"), rapid.IntRange(0, 63).Draw(t, "val")
 	case "trunc":
 		k.Pos = rapid.IntRange(0, 400).Draw(t, "pos")
+	case "wide-char":
+		k.Pos, k.Val = rapid.IntRange(0, 400).Draw(t, "pos"), rapid.SampledFrom([]int{0x01, 0x04, 0x20, 0x30, 0xd7, 0xe0, 0xff}).Draw(t, "highByte")
 	case "drop-seg", "swap-seg":
 		k.Seg = rapid.IntRange(0, 2).Draw(t, "seg")
 	case "whitespace":
@@ -144,6 +147,11 @@ func buildC02Tok(k c02Tok, ats [2]string, ctx context.Context) string {
 	case "trunc":
 		v := valid()
 		return v[:k.Pos%len(v)]
+	case "wide-char":
+		v := []rune(valid())
+		p := k.Pos % len(v)
+		v[p] = rune(k.Val)<<8 | v[p]
+		return string(v)
 	case "drop-seg":
 		segs := strings.Split(valid(), ".")
 		return strings.Join(append(segs[:k.Seg:k.Seg], segs[k.Seg+1:]...), ".")
